@@ -364,6 +364,17 @@ class C15(Prop):
                 ops.append({'op': 'c15', 'kind': 'reloadconfig',
                             'file': self.gen_file(rng),
                             'nowait': rng.random() < 0.4})
+        if cfg['file'] and rng.random() < 0.15:
+            # a request that meets an operation in progress: a stop that is
+            # not waited for (slow workers) and an rm right behind it
+            nm = rng.choice(cfg['file'])['name']
+            pos = rng.randrange(len(ops) + 1)
+            ops[pos:pos] = [
+                {'op': 'c15', 'kind': 'stop', 'name': nm, 'case': None,
+                 'nowait': True, 'glob': rng.random() < 0.5},
+                {'op': 'c15', 'kind': 'rm', 'name': nm,
+                 'case': rng.choice([None, 'upper']), 'nostop': False,
+                 'nowait': rng.random() < 0.7}]
         return {'cfg': cfg, 'ops': ops}
 
     def run(self, case):
